@@ -1,16 +1,50 @@
 import Rbp.Model.Driver
+import Rbp.Proofs.Driver
 /-!
 # C02 — exactly the blocks of heights start..min(end,tip) are delivered, once, ascending
 -/
 namespace Rbp.Props.C02
+open Run
 
-/-- contiguous index `0..T` ⇒ the driver loop delivers exactly `s, s+1, …, min(e,T)` (ascending, each once) -/
+/-- the whole-program model: when every height of `start..maxH` can be served (record present, file present, block parses,
+    verification passes if requested), the run delivers exactly `start, start+1, …, maxH` — ascending, each once — and exits 0 -/
+theorem delivered_eq_range (o : Opts) (key : Option W.Bytes) (kvs : List (W.Bytes × W.Bytes)) (files : List BlkFile)
+    (coin : Coin) (ld : Loaded) (hcoin : coinOf o.coin = some coin) (hld : loadIndex o kvs = .ok ld)
+    (hfiles : (files.filterMap fun f => (parseBlkIndex f.name).map fun n => (n, f)) ≠ [])
+    (hkey : key ≠ some [])
+    (hs : ∀ k, o.start ≤ k → k < o.start + (ld.maxH + 1 - o.start) →
+      Servable coin o key (files.filterMap fun f => (parseBlkIndex f.name).map fun n => (n, f)) ld.trimmed k) :
+    (run o key kvs files).delivered = List.range' o.start (ld.maxH + 1 - o.start) ∧ (run o key kvs files).exit = 0 :=
+  run_delivers_range o key kvs files coin ld hcoin hld hfiles hkey hs
+
+/-- the upper end is `min(--end, tip)`, and the tip itself when no `--end` is given (both inclusive) -/
+theorem upper_end (o : Opts) (kvs : List (W.Bytes × W.Bytes)) (ld : Loaded) (h : loadIndex o kvs = .ok ld) :
+    ld.maxH = (match o.stop with
+      | some e => min e (ld.full.foldl (fun a p => max a p.1) 0)
+      | none => ld.full.foldl (fun a p => max a p.1) 0) :=
+  loadIndex_maxH o kvs ld h
+
+/-- trimming the index to the range loses no height of `start-1 .. maxH` (the record `start-1` is what --verify needs) -/
+theorem trimmed_keeps_range (o : Opts) (kvs : List (W.Bytes × W.Bytes)) (ld : Loaded) (h : loadIndex o kvs = .ok ld)
+    (k : Nat) (hk1 : o.start - 1 ≤ k) (hk2 : k ≤ ld.maxH) : lookup ld.trimmed k = lookup ld.full k :=
+  loadIndex_trimmed o kvs ld h k hk1 hk2
+
+/-- the driver loop alone, over an index seen as a partial function: contiguous `0..T` ⇒ exactly `s..min(e,T)` -/
 theorem delivered_eq (idx : D.Index) (T s : Nat) (e : Option Nat) (hcontig : ∀ k, k ≤ T → idx k ≠ none) :
     D.delivered idx T s e = List.range' s (D.maxHeight e T + 1 - s) :=
   D.delivered_eq idx T s e hcontig
 
-/-- the upper end is `min e T` -/
-theorem upper_is_min (e T : Nat) : D.maxHeight (some e) T = min e T := D.maxHeight_eq_min e T
-theorem upper_is_tip (T : Nat) : D.maxHeight none T = T := rfl
+/-- file names carry `start` and the last processed height -/
+theorem file_names (ver : UInt8) (start last : Nat) (bs : List CB.EBlock) :
+    (csvFiles ver start last bs).map (·.1) =
+      ["blocks", "transactions", "tx_in", "tx_out"].map (fun f => s!"{f}-{start}-{last}.csv") := by
+  simp [csvFiles]
+
+/-- per-block outputs: the rows for a list of delivered blocks are the concatenation of the rows of its parts, so the
+    result for a range is the corresponding slice of the result for the whole chain -/
+theorem slice_csv (ver : UInt8) (s l : Nat) (bs1 bs2 : List CB.EBlock) :
+    ((csvFiles ver s l (bs1 ++ bs2)).map (·.2)) =
+      List.zipWith (· ++ ·) ((csvFiles ver s l bs1).map (·.2)) ((csvFiles ver s l bs2).map (·.2)) := by
+  simp [csvFiles]
 
 end Rbp.Props.C02
